@@ -39,6 +39,27 @@ def run(tier, seed, replay=None):
                                                                                            len(rep["divergences"]), rep.get("extra")))
         ck.add_report(rep)
         shutil.rmtree(r.workdir, ignore_errors=True)
+    # syncs of two different publishers at the same time, in every interleaving of their block requests and hook calls
+    pbug = vlib.tlc("SyncPair", ("pairbug.cfg", vlib.cfg_text(dict(N=2, Segs="{0,1}", BUG='"shared-buffer"', EXPORT=False), ["Independent"])), workers=2, timeout=600, tag="c01pairbug")
+    ck.cov["tlc_runs"].append({"name": "walk order list shared between the syncs must violate Independent", "violated": pbug.violated})
+    if pbug.violated != "Independent":
+        raise vlib.Infra("shared-buffer variant of SyncPair is no longer refuted")
+    shutil.rmtree(pbug.workdir, ignore_errors=True)
+    pn = 3 if tier == "quick" else 4
+    pr = vlib.tlc("SyncPair", ("pair.cfg", vlib.cfg_text(dict(N=pn, Segs="{0,1}", BUG='"none"', EXPORT=True), ["Independent", "ExportBehaviour"])), workers=4, timeout=3000, tag="c01pair")
+    ck.add_tlc("SyncPair", pr, "two syncs of two publishers through one Subscriber, chains of %d, unsegmented and in segments of 1: every interleaving of their block requests and "
+               "hook calls; Independent = each sync's hooks see its own chain, head first" % pn)
+    if pr.ok:
+        rep = vlib.run_harness(binary, ["c01pair", "-cases", os.path.join(pr.workdir, "c01_pairs.ndjson"), "-seed", str(seed)] + (["-sample", "6"] if tier != "quick" else []), timeout=14000)
+        if rep.get("extra", {}).get("read_error") or rep.get("extra", {}).get("shards_failed"):
+            raise vlib.Infra("c01pair harness: %s" % rep.get("extra"))
+        vlib.log("[pairs] %d interleavings replayed, %d inconclusive, %d divergences, %s" % (rep["evaluations"], rep["inconclusive"], len(rep["divergences"]), rep.get("extra")))
+        if rep["evaluations"] and rep["inconclusive"] > 0.2 * rep["evaluations"] and not rep["divergences"]:
+            raise vlib.Infra("too many inconclusive pair replays")
+        ck.add_report(rep)
+        ck.cov["pairs_rule"] = ("every exported interleaving replayed: two real Publishers (requests held at the publisher), one real Subscriber (hook calls held), two SyncAdChain "
+                                "calls at once, released step by step in the exported order; compared: the blocks each sync's hook calls were for")
+    shutil.rmtree(pr.workdir, ignore_errors=True)
     # syncs of the same publisher queueing up: each sync's own (scoped) block hook sees exactly that sync's blocks
     from props import subfam
     lines, wd = subfam.run_family(ck, binary, "scoped", 200 if tier == "quick" else 4000, seed, strict=False)
